@@ -91,14 +91,14 @@ def run(prop, conf, params, tier, seed, broken_gate):
         m = re.search(r"shape=(\w+)", spec)
         if m:
             dist["shapes"][m.group(1)] = dist["shapes"].get(m.group(1), 0) + 1
-        k = "pair" if "mode=pair" in spec else ("lj" if "kind=lj" in spec else "hard")
+        k = "pair" if "mode=pair" in spec else ("order" if "mode=order" in spec else ("lj" if "kind=lj" in spec else "hard"))
         dist["kinds"][k] = dist["kinds"].get(k, 0) + 1
         dist["scored"] += "scored=true" in meta
         dist["not_scored"] += "scored=false" in meta
         dist["pairs"] += "pair=true" in meta
         dist["clamped_sites"] += ("clampx=true" in meta or "clampy=true" in meta)
         dist["built_false"] += "built=false" in meta
-        if "built=true" in meta or "pair=true" in meta:
+        if "built=true" in meta or "pair=true" in meta or "order=true" in meta:
             nontriv.add(re.sub(r"^geom id=\S+ ", "", spec))
     return dict(
         evaluations=len(r["metas"]), distinct_nontrivial=len(nontriv),
@@ -107,7 +107,8 @@ def run(prop, conf, params, tier, seed, broken_gate):
              "Deserialize (uniform in the optimiser's bounds, dense cells, the borders of the bounds, bound-clamped sites and "
              "orientations), targeted flat-cell states with copies near opposite faces, exactly aligned states, and placed pairs "
              "at contact distance +- delta (delta log-uniform 1e-13..1e-1), aligned/coincident/mirrored, optionally under a common "
-             "rigid motion; non-trivial = distinct case the implementation could build",
+             "rigid motion; for C09/C10 triples of variants of one state with scores equal, ulps apart or clearly different (the order of "
+             "the states against the order of their scores, max under every bracketing); non-trivial = distinct case the implementation could build",
         samples=[s for s, _ in r["metas"][:3]] + [s for s, _ in r["metas"][-2:]],
         findings=relevant, mismatches=r["mismatches"], distribution=dist,
         correspondence=dict(engine="geom", cases=len(r["metas"]), bit_exact=r["bit"], within_rounding=r["tol"],
